@@ -5,6 +5,7 @@ CONSTANTS
   MaxIgnore = 1
   MaxMatchConds = 1
   MaxIgnoreConds = 1
+  Shared = FALSE
   Reduced = FALSE
   WithAlt = FALSE
 INVARIANTS EmitCase
